@@ -124,7 +124,9 @@ def normalise_tables(tables: Optional[Dict[str, Any]]) -> Dict[str, Any]:
         return {"enums": {}, "constants": {}}
     constants = {}
     for name, entry in tables.get("constants", {}).items():
-        if "set" in entry:
+        if not isinstance(entry, dict):
+            constants[name] = entry
+        elif "set" in entry:
             constants[name] = {"set": sorted(xsdk.canonical(v) for v in entry["set"])}
         elif "value" in entry:
             constants[name] = {"value": xsdk.canonical(entry["value"])}
@@ -292,7 +294,14 @@ def invariant_feature(pm: pyexec.PyModel, cause: str) -> str:
     for cls in pm.classes.values():
         for inv in cls.own_invariants:
             if inv.description == cause:
+                bodies = [inv.node.body]
                 for node in ast.walk(inv.node.body):
+                    if (
+                        isinstance(node, ast.Call) and isinstance(node.func, ast.Name)
+                        and node.func.id in pm.functions
+                    ):
+                        bodies.append(pm.functions[node.func.id].node)
+                for node in (n for body in bodies for n in ast.walk(body)):
                     if (
                         isinstance(node, ast.Compare)
                         and isinstance(node.ops[0], (ast.Eq, ast.NotEq))
@@ -512,17 +521,24 @@ def compare_leg(
                     if view.get("errors") is None:
                         continue
                     as_viewed, _ = errors_counter(view["errors"], py_map)
-                    if as_viewed == got:
+                    # every difference on which the viewed instance agrees with the other
+                    # SDK is attributed to this mechanism; the rest is classified below
+                    attributed = [
+                        key for key in list(missing) + list(extra)
+                        if as_viewed.get(key, 0) == got.get(key, 0)
+                    ]
+                    if attributed:
                         chk.violation(
                             f"{leg}/verification/{label}",
                             witness(
-                                case,
+                                case, attributed=[[list(p), c] for (p, c) in attributed],
                                 python_errors=[[list(p), c, k] for (p, c), k in want.items()],
                                 other_errors=[[list(p), c, k] for (p, c), k in got.items()],
                             ),
                         )
-                        missing, extra = collections.Counter(), collections.Counter()
-                        break
+                        for key in attributed:
+                            missing.pop(key, None)
+                            extra.pop(key, None)
                 explained = collections.Counter()
                 for (path, cause), n in missing.items():
                     feature = invariant_feature(pm, cause)
